@@ -13,6 +13,15 @@ folding; classes computed from `unicodedata`, nothing is listed by hand) maps to
 non-ASCII digits, lone surrogates, astral characters, an ASCII character followed by a combining mark or a
 default-ignorable character, the empty string and two characters - written raw or with any escape form, as a plain literal,
 concatenated with '' on either side or taken out of a one-element set, for every integer width around 8 and the other types.
+Reference family (`gen_refer_case`, "fam": "refer"): definitions with SEVERAL constants in which later initialisers refer
+to earlier constants - 1-3 earlier constants of every type / initialiser kind (a character, a boolean, integers at the ends
+of their ranges, rationals that a binary float represents exactly or not, saturated / truncated types, constants that
+themselves refer to earlier ones), then `<type> X = <expression over their names>` (bare copy into a type of the same,
+a wider, a narrower kind; arithmetic, comparisons, logic, two references, sets of references), the target type chosen
+around the value.  The expected value is computed by the harness from the STORED value of the referenced constants (the
+rule of C12 applied to each earlier constant in turn: a character is its code point); the earlier constants of the returned
+model are judged as well ("soft_env").  One case in three is a service: the section under test is the request or the
+response, the other section declares constants of the SAME names with other values (a lookup never crosses `---`).
 Second route (`soft_ctor`): the value the initialiser denotes (computed by the harness) is handed to the public
 constructors `Constant(<Type>(width, cast mode), "X", String / Rational / Boolean / Set)`; the same rule must hold there.
 """
@@ -266,11 +275,200 @@ def gen_char_tree(rng: random.Random) -> list:
 
 
 CHAR_SHARE = 0.2
+REFER_SHARE = 0.14
+
+# ------------------------------------------------------------------------------------------------ references to earlier constants
+
+REF_NAMES = ["A", "B", "CH", "K1", "LIMIT", "FLAG", "Q_", "ZERO", "DEFAULT_VALUE", "M2"]
+
+
+def _float_ty(rng):
+    n = rng.choice([16, 32, 64])
+    m = rng.choice(["sat", "trunc"])
+    return ["float", n, m, ("truncated " if m == "trunc" else rng.choice(["", "saturated "])) + "float%d" % n]
+
+
+def _int_ty(rng, k, n):
+    m = rng.choice(["sat", "trunc"]) if k == "uint" else "sat"
+    return [k, n, m, ("truncated " if m == "trunc" else rng.choice(["", "saturated "])) + "%s%d" % (k, n)]
+
+
+def fit_type(rng: random.Random, v) -> list:
+    """A constant type around the value: mostly the narrowest type that holds it or one next to it."""
+    k = X.kind_of(v)
+    x = rng.random()
+    if k == "bool":
+        return ["bool"] if x < 0.85 else _int_ty(rng, "uint", rng.choice([1, 8]))
+    if k == "rat" and v.denominator == 1:
+        if x < 0.8:
+            i = v.numerator
+            if i >= 0 and rng.random() < 0.6:
+                n = max(1, i.bit_length()) + rng.choice([-1, -1, 0, 0, 0, 0, 1, 2, 7])
+                return _int_ty(rng, "uint", min(64, max(1, n)))
+            need = (i.bit_length() if i >= 0 else (-i - 1).bit_length()) + 1
+            return _int_ty(rng, "int", min(64, max(2, need + rng.choice([-1, -1, 0, 0, 0, 0, 1, 2, 7]))))
+        return _float_ty(rng) if x < 0.93 else ["bool"]
+    if k == "rat":
+        return _float_ty(rng) if x < 0.8 else _int_ty(rng, rng.choice(["uint", "int"]), rng.choice([8, 16, 64]))
+    return _int_ty(rng, "uint", 8) if x < 0.7 else gen_type(rng)
+
+
+def ref_expr(rng: random.Random, refs: typing.List[typing.Tuple[str, typing.Any]]) -> list:
+    """An initialiser that refers to one or two of the constants `refs` = [(name, stored value)]."""
+    name, v = rng.choice(refs)
+    me = ["id", name]
+    x = rng.random()
+    if X.kind_of(v) == "bool":
+        others = [["id", n] for n, w in refs if X.kind_of(w) == "bool" and n != name] or [["bool", rng.random() < 0.5]]
+        if x < 0.35:
+            return me
+        if x < 0.5:
+            return ["un", "not", me]
+        if x < 0.8:
+            pair = [me, rng.choice(others)]
+            rng.shuffle(pair)
+            return ["bin", rng.choice(["lor", "land", "eq", "ne"]), pair[0], pair[1]]
+        return ["bin", rng.choice(["eq", "ne"]), me, ["bool", rng.random() < 0.5]]
+    if X.kind_of(v) != "rat":
+        return me
+    rats = [["id", n] for n, w in refs if X.kind_of(w) == "rat" and n != name]
+    if x < 0.3:
+        return me
+    if x < 0.38:
+        return ["un", rng.choice(["neg", "neg", "pos"]), me]
+    if x < 0.62:
+        op = rng.choice(["add", "add", "sub", "sub", "mul", "div", "mod", "bor", "band"])
+        k = rng.choice([0, 1, 1, 2, 3, 10, 127, 128, 255, 256])
+        lit = X.lit_int(k, rng) if rng.random() < 0.85 else X.lit_real(rng)
+        return ["bin", op, me, lit] if rng.random() < 0.65 else ["bin", op, lit, me]
+    if x < 0.72 and rats:
+        return ["bin", rng.choice(["add", "sub", "mul", "div", "eq", "lt", "ge"]), me, rng.choice(rats)]
+    if x < 0.9:
+        near = v + rng.choice([-1, 0, 0, 0, 1]) if v.denominator == 1 else v
+        rhs = frac_tree(near, rng)
+        return ["bin", rng.choice(X.CMP), me, rhs] if rng.random() < 0.7 else ["bin", rng.choice(X.CMP), rhs, me]
+    if x < 0.95:
+        return ["bin", "pow", me, X.lit_int(rng.choice([0, 1, 2, 2, 3]), rng)]
+    return ["attr", ["set", [me, rng.choice(rats) if rats and rng.random() < 0.5 else X.lit_int(rng.choice([0, 1, 100, 255]), rng)]], rng.choice(["min", "max"])]
+
+
+def gen_ref_item(rng: random.Random, refs) -> typing.Tuple[list, list]:
+    """(type, initialiser) of an earlier constant: one kind of stored value each."""
+    kind = rng.choice(["char", "char", "char", "bool", "int", "int", "rat-exact", "rat-inexact", "chain", "chain"])
+    if kind == "chain" and refs:
+        t = ref_expr(rng, refs)
+        try:
+            return fit_type(rng, X.o_eval(t, dict(refs))), t
+        except (X.Invalid, X.Skip):
+            kind = "int"
+    if kind == "char":
+        m = rng.choice(["sat", "trunc"])
+        ty = ["uint", 8, m, ("truncated " if m == "trunc" else rng.choice(["", "saturated "])) + "uint8"]
+        cp = rng.choice([rng.randrange(32, 127), rng.randrange(32, 127), rng.randrange(128), rng.choice([0, 9, 10, 39, 48, 65, 92, 97, 126, 127])])
+        return ty, char_literal(rng, [cp])
+    if kind == "bool":
+        return ["bool"], (["bool", rng.random() < 0.5] if rng.random() < 0.7 else ["bin", rng.choice(["eq", "lt"]), X.lit_int(1, rng), X.lit_int(rng.choice([1, 2]), rng)])
+    if kind in ("int", "chain"):
+        k = rng.choice(["uint", "uint", "int"])
+        n = rng.choice([1, 2, 7, 8, 8, 9, 16, 32, 63, 64, rng.randint(1, 64)])
+        n = max(2, n) if k == "int" else n
+        lo, hi = (0, 2 ** n - 1) if k == "uint" else (-(2 ** (n - 1)), 2 ** (n - 1) - 1)
+        v = rng.choice([lo, hi, hi, 0, min(1, hi), max(lo, hi - 1), min(hi, lo + 1), rng.randint(lo, hi), rng.randint(max(lo, -300), min(hi, 300))])
+        return _int_ty(rng, k, n), int_tree(v, rng)
+    ty = _float_ty(rng)
+    if kind == "rat-exact":   # what a binary float of that width represents exactly
+        q = rng.choice([Fraction(rng.randint(-2000, 2000), 2 ** rng.randint(0, 10)), Fraction(rng.randint(-40, 40)), X.FLOAT_MAX[ty[1]], -X.FLOAT_MAX[ty[1]], Fraction(1, 2), Fraction(0)])
+        return ty, frac_tree(q, rng)
+    q = rng.choice([Fraction(1, 3), Fraction(-1, 3), Fraction(1, 10), Fraction(22, 7), Fraction(1, 10 ** 30), Fraction(2 ** 24 + 1), Fraction(10 ** 3 + 1, 10 ** 3),
+                    X.FLOAT_MAX[ty[1]] - Fraction(1, 3)])
+    return ty, (frac_tree(q, rng) if rng.random() < 0.7 else X.lit_real(rng))
+
+
+def stored_env(items) -> dict:
+    """name -> STORED value of every earlier constant, by the rule of C12 applied in turn (raises Invalid / Skip)."""
+    env: dict = {}
+    for name, ty, t, _text in items:
+        if not X.ty_wf(ty):
+            raise X.Invalid("type parameters")
+        if name in env:
+            raise X.Skip("constant declared twice")
+        env[name] = o_const12(ty, X.o_eval(t, env))
+    return env
+
+
+def gen_refer_items(rng: random.Random, names: typing.List[str], must_hold: bool) -> typing.Optional[list]:
+    items: list = []
+    refs: list = []
+    for name in names:
+        for _ in range(10):
+            ty, t = gen_ref_item(rng, refs)
+            it = [name, ty, t, X.render(t, rng, rng.choice([0.0, 0.0, 0.3]), rng.choice([0.0, 0.5, 1.0]))]
+            try:
+                v = stored_env(items + [it])[name]
+            except X.Invalid:
+                if must_hold or rng.random() < 0.97:   # now and then an earlier constant is itself out of range: the definition is rejected
+                    continue
+                return items + [it]
+            except X.Skip:
+                continue
+            items.append(it)
+            refs.append((name, v))
+            break
+        else:
+            return None
+    return items
+
+
+def gen_refer_case(rng: random.Random) -> typing.Optional[dict]:
+    names = rng.sample(REF_NAMES, rng.choice([1, 1, 2, 2, 3]))
+    items = gen_refer_items(rng, names, False)
+    if not items:
+        return None
+    try:
+        env = stored_env(items)
+    except X.Invalid:
+        env = None
+    except X.Skip:
+        return None
+    if env is None:     # rejected anyway: any initialiser that mentions a name
+        tree = ["id", names[0]]
+        ty = _int_ty(rng, "uint", 8)
+    else:
+        tree = ref_expr(rng, sorted(env.items(), key=lambda kv: names.index(kv[0])))
+        val = _try_eval(tree, env)
+        if val is not None and rng.random() < 0.15:   # the reference deeper inside
+            tree = ["bin", rng.choice(["add", "sub", "mul"]), tree, X.lit_int(rng.choice([0, 1, 2]), rng)] if X.kind_of(val) == "rat" else \
+                ["un", "not", tree] if X.kind_of(val) == "bool" else tree
+        val = _try_eval(tree, env)
+        ty = fit_type(rng, val) if val is not None else rng.choice([["bool"], _int_ty(rng, "uint", 8), _float_ty(rng)])
+    case = {"tree": tree, "env": items, "ctx": ["const", ty], "fam": "refer"}
+    if rng.random() < 0.33:
+        decoy = gen_refer_items(rng, names + (["X"] if rng.random() < 0.5 else []), True)
+        if decoy:
+            case["svc"] = {"section": rng.choice(["request", "response"]), "decoy": decoy}
+    return case
+
+
+def _try_eval(tree, env):
+    try:
+        return X.o_eval(tree, env)
+    except (X.Invalid, X.Skip):
+        return None
 
 
 def gen_case(rng: random.Random) -> dict:
     for _ in range(50):
-        fam = "char" if rng.random() < CHAR_SHARE else "general"
+        x = rng.random()
+        fam = "refer" if x > 1.0 - REFER_SHARE else "char" if x < CHAR_SHARE else "general"
+        if fam == "refer":
+            case = gen_refer_case(rng)
+            if case is None:
+                continue
+            status, _ = o_case12(case)
+            if status == "skip":
+                continue
+            case["text"], case["style"] = X.render(case["tree"], rng, rng.choice([0.0, 0.0, 0.3]), rng.choice([0.0, 0.5, 1.0])), "minimal"
+            return case
         if fam == "char":
             ty = gen_char_type(rng)
             tree = gen_char_tree(rng)
@@ -309,10 +507,8 @@ def o_const12(ty, v):
 
 
 def o_value12(case):
-    """The value the initialiser denotes (may raise Invalid / Skip)."""
-    if case.get("env"):
-        raise X.Skip("environment")
-    return X.o_eval(case["tree"], {})
+    """The value the initialiser denotes (may raise Invalid / Skip); names denote the STORED values of the earlier constants."""
+    return X.o_eval(case["tree"], stored_env(case.get("env") or []))
 
 
 def o_case12(case) -> typing.Tuple[str, typing.Any]:
@@ -411,6 +607,71 @@ def exhaustive_boundaries():
     return out
 
 
+def refer_text(case) -> str:
+    """The definition of a reference case; a service when the case says so (the other section: constants of the same names)."""
+    svc = case.get("svc")
+    if not svc:
+        return X.dsdl_text(case)
+    main = X.dsdl_text(case)
+
+    def line(it):
+        return "%s %s = %s" % (it[1][-1] if it[1][0] != "bool" else "bool", it[0], it[3])
+    other = "\n".join([line(it) for it in svc["decoy"]] + ["@sealed"]) + "\n"
+    return main + "---\n" + other if svc["section"] == "request" else other + "---\n" + main
+
+
+def observe_refer(case) -> dict:
+    """As expr.observe_impl for a constant, plus the stored values of the earlier constants of the same section."""
+    pydsdl = common.import_pydsdl()
+    types, _printed, ex, f = X.run_definition(refer_text(case))
+    if ex is not None:
+        out = X.classify_exception(pydsdl, ex, f)
+        out["rt"] = True
+        return out
+    t = types[0]
+    svc = case.get("svc")
+    if svc:
+        t = t.request_type if svc["section"] == "request" else t.response_type
+    consts = {c.name: c for c in t.constants}
+    out = {"v": X.canon_raw(X.from_expression_value(pydsdl, consts["X"].value)), "rt": True}
+    out["soft_env"] = {n: X.canon_raw(X.from_expression_value(pydsdl, c.value)) for n, c in consts.items() if n != "X"}
+    return out
+
+
+def refer_features(case):
+    yield "refer:" + ("service-" + case["svc"]["section"] if case.get("svc") else "message")
+    names = {it[0] for it in case["env"]}
+    used = [t[1] for t in X.walk(case["tree"]) if t[0] == "id"]
+    yield "refer:names-in-initialiser=%d" % len(set(used))
+    try:
+        env = stored_env(case["env"])
+    except (X.Invalid, X.Skip):
+        yield "refer:earlier-constant-rejected"
+        return
+    for it in case["env"]:
+        chained = any(t[0] == "id" for t in X.walk(it[2]))
+        what = "character" if any(t[0] == "str" for t in X.walk(it[2])) else "boolean" if it[1][0] == "bool" else \
+            "float:" + ("exact" if _binary_exact(env[it[0]], it[1][1]) else "inexact") if it[1][0] == "float" else "integer"
+        mode = ":" + it[1][2] if len(it[1]) > 3 else ""
+        role = "referenced" if it[0] in used else "bystander"
+        yield "refer:%s=%s%s%s" % (role, what, mode, ":chained" if chained else "")
+    t = case["tree"]
+    yield "refer:form=" + ("bare" if t[0] == "id" else t[0] + ":" + str(t[1]) if t[0] in ("un", "bin") else t[0])
+    for u in used:
+        if u not in names:
+            yield "refer:undefined-name"
+
+
+def _binary_exact(q, width) -> bool:
+    """A rational that a binary float of the given width represents exactly (normal range; enough for a feature label)."""
+    if X.kind_of(q) != "rat":
+        return False
+    d = q.denominator
+    if d & (d - 1):
+        return False
+    return abs(q.numerator).bit_length() - (abs(q.numerator) & -abs(q.numerator)).bit_length() + 1 <= {16: 11, 32: 24, 64: 53}[width] if q else True
+
+
 class ConstSuite(X.ExprSuite):
     name = "const"
 
@@ -421,7 +682,13 @@ class ConstSuite(X.ExprSuite):
         return exhaustive_boundaries()
 
     def run_impl(self, case):
-        out = super().run_impl(case)
+        if case.get("fam") == "refer":
+            try:
+                out = observe_refer(case)
+            except Exception as ex:  # harness-side problem: visible as a disagreement, never a crash
+                out = {"err": "harness:" + type(ex).__name__, "soft_msg": str(ex)[:300], "rt": True}
+        else:
+            out = super().run_impl(case)
         try:
             c = ctor_observe(case)
             if c is not None:
@@ -435,9 +702,22 @@ class ConstSuite(X.ExprSuite):
         if status == "skip":
             return None
         ty = case["ctx"][1]
-        v = judge(status, val, impl, "expression", case["text"])
+        what = "expression"
+        if case.get("env"):
+            what = "after the constants [%s]%s: expression" % (
+                "; ".join("%s %s = %s" % (it[1][-1], it[0], it[3]) for it in case["env"]),
+                " (%s section of a service)" % case["svc"]["section"] if case.get("svc") else "")
+        v = judge(status, val, impl, what, case["text"])
         if v is None and impl.get("soft_ctor") is not None:
             v = judge(status, val, impl["soft_ctor"], "constructors: Constant(%s, 'X', value of" % ty[-1], case["text"])
+        if v is None and status == "v" and isinstance(impl.get("soft_env"), dict):
+            # the earlier constants of the returned model: each holds the value the rule gives for its own initialiser
+            env = stored_env(case["env"])
+            for it in case["env"]:
+                got = impl["soft_env"].get(it[0])
+                if got is not None and got != X.canon(env[it[0]]):
+                    return "constant %s %s = %s (const) of the returned model: library value %s, mathematical value %s" % (
+                        it[1][-1], it[0], it[3], X._short(got), X._short(X.canon(env[it[0]])))
         return v
 
     def compare(self, case, impl, model, prop):
@@ -451,6 +731,10 @@ class ConstSuite(X.ExprSuite):
         return super().compare(case, impl, model, prop)
 
     def shrink(self, case):
+        if case.get("svc"):
+            yield {k: v for k, v in case.items() if k != "svc"}
+            if case["svc"]["decoy"]:
+                yield dict(case, svc=dict(case["svc"], decoy=case["svc"]["decoy"][:-1]))
         for c in super().shrink(case):
             if c["ctx"][0] == "const":   # the property is about constants: the context stays
                 yield c
@@ -466,6 +750,8 @@ class ConstSuite(X.ExprSuite):
             yield "rejected-as:" + impl["soft_exc"]
         if case.get("fam"):
             yield "family:" + case["fam"]
+        if case.get("fam") == "refer":
+            yield from refer_features(case)
         for t in X.walk(case["tree"]):
             if t[0] == "str" and t[2] is not None:
                 yield "string:" + char_class_of(t[2]) + ("/uint8" if ty[0] == "uint" and ty[1] == 8 else "/other-type")
